@@ -135,6 +135,9 @@ type machine struct {
 	mapOrderNondet bool
 	mapOrderFuncs  []string
 	schedNondet    bool
+	raceOn         bool // verifrt.LocksetRace: lockset check on map accesses of spawned goroutines
+	raceSeen       bool
+	mapAcc         map[*omap]*mapState
 	preemptBudget  int
 	wedgeLabel     string
 	panicSite      string
